@@ -578,6 +578,13 @@ class Printer:
                 self.called[fn] += 1
                 return '%s(&%s, %s, %s)' % (fn, os_, idx, self.e(self.skip(args[1])))
             self.brk('vector member not in table: %s/%d' % (m, len(args)), n)
+        if m.startswith('operator ') and not args:
+            # conversion function (e.g. unique_ptr::operator bool) on an opaque token / pointer
+            tgt = m[len('operator '):].strip()
+            if tgt == 'bool':
+                self.fire('call:conversion-to-bool')
+                return '(%s != 0)' % self.e(o)
+            self.brk('conversion function to ' + tgt, n)
         # call on this / another object -> C function  Class__method(&obj, args)
         cls = self.class_of(o, me)
         if ('%s::%s' % (cls, m)) in self.unit.get('identity_methods', []) and not args:
